@@ -161,6 +161,35 @@ def this_field_writes(info, f):
     return out
 
 
+def check_records_kept(ctx, tu, info, f):
+    """A record leaves the remover only after its listener was detached. Detaching calls into the target (key hash / comparison of a
+    user type, a policy mutex) and may throw; whatever was taken out of itemList *before* the walk (swap / move into a local that is then
+    walked) is lost when a removal throws half-way: those listeners stay attached and no remover is responsible for them any more, so
+    they outlive the remover. Walking itemList in place and clearing it afterwards keeps the remover responsible (a later reset() or the
+    destructor finishes the job)."""
+    taken = taken_locals(f, info)
+    if not taken:
+        return
+    walks = walk_over(f, lambda rp: len(rp) == 1 and root_var_id(rp) in taken)
+    helper = False
+    for n in f.calls():
+        for g in f.callee_fns(n):
+            if g.cls == 'ScopedRemover' and g.id != f.id:
+                for prm, a in zip(g.params, f.call_args(n)):
+                    if len(path(f, a)) == 1 and root_var_id(path(f, a)) in taken and \
+                            walk_over(g, lambda rp, pid=prm['id']: len(rp) == 1 and root_var_id(rp) == pid):
+                        helper = True
+    if not walks and not helper:
+        return
+    if any(o['cls'] in ('CXXTryStmt', 'CXXCatchStmt') for o in f.nodes.values()):
+        ctx.broken_later('C15.P2: %s hands the records to a local before detaching and contains a try block - restoring the records on a '
+                         'throwing removal is not modelled' % f.pattern())
+        return
+    ctx.ob('C15.P2', f, 'records stay in the remover until their listeners are detached (a throwing removal must not orphan the rest)', False,
+           detail='the records are swapped / moved out of itemList before the walk that detaches them: if a removal throws, the remaining '
+                  'listeners stay attached and unrecorded, and outlive the remover', key_detail='records taken before detach')
+
+
 def check_fn(ctx, tu, info, f):
     name = f.name
     si = info.scopes(f)
@@ -202,6 +231,7 @@ def check_fn(ctx, tu, info, f):
         ctx.ob('C15.P4', f, 'swap exchanges the target and the record of both removers', flds == want and oflds == want,
                detail='exchanged %s / %s, expected %s' % (flds, oflds, want))
         return
+    check_records_kept(ctx, tu, info, f)
     if name == 'reset':
         check_reset(ctx, tu, info, f)
         return
